@@ -866,6 +866,12 @@ struct Tcp
 	// ------------------------------------------------------------ C19: the capture file
 	void check_capture()
 	{
+		{
+			// the raw bytes of the capture are part of the run's observable trace (C01 compares them)
+			std::string raw;
+			read_file(pcap_path, raw);
+			ctx.tr.rec("pcap_file", {}, {int64_t(raw.size()), int64_t(hash_bytes(reinterpret_cast<uint8_t const*>(raw.data()), raw.size()))});
+		}
 		model::PcapFile const f = model::read_pcap(pcap_path);
 		if (!f.ok) { fail("pcap.malformed", "capture file: " + f.error); return; }
 		if (f.ver_major != 2 || f.ver_minor != 4) fail("pcap.header", "pcap version is not 2.4");
@@ -990,6 +996,9 @@ struct TcpEngine : Engine
 			for (int h = 0; h < hops; ++h) ++cnt[rng.below(3)];
 			for (int k = 0; k < 3; ++k) gen_hops(p, rng, names[k], cnt[k], finite, min_cap, slow_ok);
 		}
+		// now and then: nothing at all between the two sockets (every packet delivered synchronously)
+		if (!c05 && rng.chance(0.06))
+			for (char const* pre : {"ao", "ab", "bi", "bo", "ba", "ai"}) p.cfg[std::string(pre) + "n"] = 0;
 		// fault sinks for C05: first hop of each node's outgoing chain
 		int fault_class = 0; // 0 none, 1 drops, 2 delays, 3 both
 		if (c05)
